@@ -114,8 +114,19 @@ def check_history(case) -> Outcome:
     CONTEXT_K[:] = list(KNOTS)
     CONTEXT_Z.clear()
     nrows = [len(df) for df in frames]
+    # process-wide state a materialisation must leave alone
+    np_err0 = dict(np.geterr())
+    rng0 = np.random.get_state()[1].tobytes()
 
     def invariants(step):
+        if dict(np.geterr()) != np_err0:
+            now = dict(np.geterr())
+            np.seterr(**np_err0)
+            out.fail("global-state-changed", f"after {step}: numpy error settings are now {now} (were {np_err0})", op=step[0], what="numpy.seterr")
+            return False
+        if np.random.get_state()[1].tobytes() != rng0:
+            out.fail("global-state-changed", f"after {step}: numpy's global random state was consumed", op=step[0], what="numpy.random")
+            return False
         if CONTEXT_K != KNOTS:
             out.fail("context-object-mutated", f"after {step}: the caller's list K is now {CONTEXT_K}", op=step[0])
             CONTEXT_K[:] = list(KNOTS)
